@@ -29,7 +29,7 @@ STUB = ["battery / inverter data streams (fake microgrid API)", "set-power resul
 RULE = ("one run = 1 tracker (or a pool of 2-3) fed battery and inverter messages that are healthy or faulty in one way "
         "(component state, relay state, critical error, NaN capacity, stale timestamp), silences of (max_data_age -1us / = / "
         "+1us / x2), set-power results succeeded/failed/not-mentioned at drawn instants incl. exactly at the end of a "
-        "blocking period, with exact (no cost) or noisy (cost + stalls) timing; non-trivial = at least one disqualifying "
+        "blocking period, two results back to back in one loop iteration (pool), with exact (no cost) or noisy (cost + stalls) timing; non-trivial = at least one disqualifying "
         "message/silence or failed result; distinct = abstract digest of (event kind, stream) sequence; model states = "
         "(bat_ok, inv_ok, blocked, status) visited")
 QUICK_RUNS = 3000
